@@ -67,7 +67,11 @@ var c02Clocks = []struct {
 // K2 signature (K2's certificate has a wider window than the others) (a bad Response signature must not be downgraded to "unsigned, assertion signed").
 // "two-assertions": unsigned Response, first assertion under the signer state, second
 // genuinely signed by K2 (a bad assertion signature must not be skipped).
-var c02Kinds = []string{"response-signed", "assertion-signed", "LogoutRequest", "LogoutResponse", "both-signed", "two-assertions"}
+// "response-good+assertion-state": the Response is genuinely signed by K2 and encloses an
+// assertion whose OWN signature is under the signer state (the IdP signed the Response over
+// it): acceptance follows the Response signature; the assertion must not be reported as
+// individually validated unless its own signature is honoured.
+var c02Kinds = []string{"response-signed", "assertion-signed", "LogoutRequest", "LogoutResponse", "both-signed", "two-assertions", "response-good+assertion-state"}
 
 type c02Case struct {
 	Kind    string       `json:"kind"`
@@ -98,7 +102,7 @@ func c02Message(kind string, si int, deflate bool, nested bool) string {
 	wideA, wideB := idp.TS(world.T0.Add(-3*time.Hour)), idp.TS(world.T0.Add(3*time.Hour))
 	var out string
 	switch kind {
-	case "response-signed", "assertion-signed", "both-signed", "two-assertions":
+	case "response-signed", "assertion-signed", "both-signed", "two-assertions", "response-good+assertion-state":
 		n := 1
 		if kind == "two-assertions" {
 			n = 2
@@ -118,6 +122,10 @@ func c02Message(kind string, si int, deflate bool, nested bool) string {
 		case "two-assertions":
 			r.Assertions[0].Sign = sign
 			r.Assertions[1].Sign = idp.SignSpec{Key: "K2"}
+		case "response-good+assertion-state":
+			r.Sign = idp.SignSpec{Key: "K2"}
+			r.Assertions[0].Sign = sign
+			r.Assertions[0].Sign.Nested = ""
 		}
 		r.Layout.Deflate = deflate
 		out = idp.RenderResponse(r)
@@ -175,6 +183,11 @@ func c02ExecOn(c c02Case, live *saml2.SAMLServiceProvider) (keys []string, detai
 		// the second assertion is signed K2+C2 (wider window): both must be honoured
 		hon = hon && c02Honoured(c02Signers[1], c.Conf.Store, clock)
 	}
+	assertionHon := hon
+	if c.Kind == "response-good+assertion-state" {
+		// acceptance follows the Response's own (K2) signature
+		hon = c02Honoured(c02Signers[1], c.Conf.Store, clock)
+	}
 	msg := c02Message(c.Kind, c.Signer, c.Deflate, c.Nested)
 	sp := live
 	if sp == nil {
@@ -186,14 +199,17 @@ func c02ExecOn(c c02Case, live *saml2.SAMLServiceProvider) (keys []string, detai
 	var accepted, flagged bool
 	var cr callResult
 	switch c.Kind {
-	case "response-signed", "assertion-signed", "both-signed", "two-assertions":
+	case "response-signed", "assertion-signed", "both-signed", "two-assertions", "response-good+assertion-state":
 		resp, r := validateResponse(sp, msg)
 		cr = r
 		accepted = r.Accepted()
 		if accepted {
 			switch c.Kind {
-			case "response-signed", "both-signed":
+			case "response-signed", "both-signed", "response-good+assertion-state":
 				flagged = resp.SignatureValidated
+				if c.Kind == "response-good+assertion-state" && len(resp.Assertions) == 1 && resp.Assertions[0].SignatureValidated && !assertionHon {
+					keys = append(keys, fmt.Sprintf("C02/%s/%s/assertion-flag-without-honoured-own-signature", c.Kind, s.Name))
+				}
 			case "assertion-signed":
 				flagged = len(resp.Assertions) == 1 && resp.Assertions[0].SignatureValidated
 			default:
@@ -208,7 +224,7 @@ func c02ExecOn(c c02Case, live *saml2.SAMLServiceProvider) (keys []string, detai
 		if r2.Accepted() != accepted {
 			keys = append(keys, fmt.Sprintf("C02/%s/entry-points-disagree", c.Kind))
 		}
-		if r2.Accepted() && (c.Kind == "response-signed" || c.Kind == "both-signed") && info.ResponseSignatureValidated != flagged {
+		if r2.Accepted() && (c.Kind == "response-signed" || c.Kind == "both-signed" || c.Kind == "response-good+assertion-state") && info.ResponseSignatureValidated != flagged {
 			keys = append(keys, fmt.Sprintf("C02/%s/summary-flag-differs", c.Kind))
 		}
 	case "LogoutRequest":
@@ -271,7 +287,7 @@ func c02Replay(raw json.RawMessage) ([]string, string) {
 }
 
 func c02Run(r *mc.Run) {
-	r.Rule = "full product kind(6) x signer state(12) x store(7) x clock position(11: both ends of two certificate windows, +-1s) x presentation(2) x signature placement(2: directly under the signed element, nested in an Extensions child); a case is non-trivial when the message passed decoding and reached signature processing (every case here does: all are well-formed signed messages); distinct = distinct (kind,signer,store,clock,presentation)"
+	r.Rule = "full product kind(7) x signer state(12) x store(7) x clock position(11: both ends of two certificate windows, +-1s) x presentation(2) x signature placement(2: directly under the signed element, nested in an Extensions child); a case is non-trivial when the message passed decoding and reached signature processing (every case here does: all are well-formed signed messages); distinct = distinct (kind,signer,store,clock,presentation)"
 	r.Assume("goxmldsig canonicalisers (used by the harness signer) are correct", "RSA/ECDSA unforgeable")
 	var cases []c02Case
 	n, complete := mc.Enumerate(-1, r.Expired, func(c *mc.Chooser) {
